@@ -1,4 +1,5 @@
 import Unimock.Lemmas.Actions
+import Unimock.Lemmas.SoloRun
 /-!
 # C10 — counting, sequencing and ordering are exact under every thread interleaving
 
@@ -172,5 +173,41 @@ example :
     let s : Shared Nat Int := ⟨.error, [⟨⟨7, "T", "f", false, false, false⟩, .anyOrder, [p]⟩], 0, []⟩
     patPositions 7 0 [.bumpPat 7 0, .bumpGlobal, .bumpPat 7 0]
       (runActions s [.bumpPat 7 0, .bumpGlobal, .bumpPat 7 0]).2 = [0, 1] := by decide
+
+/-! ## the interleaving model run without interference is the sequential model
+
+The theorems above speak about lists of atomic actions; the other properties' theorems speak about the
+sequential `call`. The two models are the same thing seen at two granularities: a thread of the
+interleaving model, scheduled alone until it has finished, makes its calls exactly as `call` does.
+Together with the schedule-independence theorems this is the sequential reference the property's
+"equals that of the same calls made sequentially" refers to. -/
+
+/-- **C10, a thread that nobody interleaves with is the sequential run** — for every mock assembled
+    from clauses (more generally: distinct method ids) and every list of calls: after `5·n+5`
+    scheduling steps the thread has finished, its outcomes are those of `call` applied one after the
+    other, and the shared state (counters, ordered index, single-use slots, error log) is the same. -/
+theorem C10_solo_thread_is_sequential (s : Shared α ρ) (hu : s.UniqueIds) (calls : List (MethodInfo × α)) :
+    let r := soloRun (5 * calls.length + 5) (s, ({ todo := calls } : ThreadSt α ρ))
+    r.2.isFinished = true ∧ r.2.outs = (seqCalls s calls).2 ∧ r.1 = (seqCalls s calls).1 := by
+  have := soloRun_spec (5 * calls.length + 5) s ({ todo := calls } : ThreadSt α ρ) hu
+    (by simp [ThreadSt.measure, Phase.rank])
+  simpa [remaining] using this
+
+/-- every mock built by `Unimock::new` from clauses satisfies the hypothesis of the theorem above -/
+theorem C10_assembled_mocks_have_distinct_ids (fb : Fallback) (c : ClauseTree α ρ) (s : Shared α ρ)
+    (h : newMock fb c = .ok s) : s.UniqueIds := newMock_uniqueIds fb c s h
+
+/-- one call, cut into its atomic actions and run alone, is `call` -/
+theorem C10_atomic_call_is_call (s : Shared α ρ) (hu : s.UniqueIds) (m : MethodInfo) (a : α) :
+    finish 4 s (beginCall s m a) = ((call s m a).1, some (ThreadOut.ofEval (call s m a).2)) :=
+  finish_begin_eq_call s hu m a
+
+/-- non-vacuity: a two-call thread over an ordered single-use pattern (second call over-runs) -/
+example :
+    let mi : MethodInfo := ⟨7, "T", "f", false, false, false⟩
+    let p : Pattern Nat Int := ⟨some (fun _ => some true), none, [⟨0, .ret 5 true, false⟩], 0, 1, 1, .exact, 0⟩
+    let s : Shared Nat Int := ⟨.error, [⟨mi, .inOrder, [p]⟩], 0, []⟩
+    (soloRun 15 (s, ({ todo := [(mi, 1), (mi, 2)] } : ThreadSt Nat Int))).2.outs
+      = [.ret 5, .err (.callOrderNotMatched mi 1 none)] := by decide
 
 end Unimock
